@@ -140,7 +140,8 @@ Record creg := MkCR {
   c_byname : list (positive * nat);
   c_nameof : list (positive * positive);     (* base id -> the name written for it *)
   c_one : positive;
-  c_nd : nat }.
+  c_nd : nat;
+  c_cnames : list (positive * positive) }.    (* handle + 1 -> name, for named units that are not leaves (Hertz = s^-1) *)
 
 Fixpoint aget {A} (k : positive) (l : list (positive * A)) : option A :=
   match l with
@@ -149,6 +150,8 @@ Fixpoint aget {A} (k : positive) (l : list (positive * A)) : option A :=
   end.
 
 Inductive leaf := LOne | LBase (i : positive).
+Global Instance leaf_eq_dec : EqDecision leaf.
+Proof. solve_decision. Defined.
 
 (* which leaf a stored unit is: identity prefix and factor map {i: 1} (a base unit) or empty (One) *)
 Definition leaf_of (x : unit3) : option leaf :=
@@ -179,7 +182,9 @@ Definition enc_unit (r : creg) (x : unit3) : json :=
   match leaf_of x with
   | Some l => enc_leaf r l (udim x)
   | None =>
-      JObj [(KTag, JTag TUnit); (KName, JNull); (KDim, enc_dim (c_nd r) (udim x));
+      JObj [(KTag, JTag TUnit);
+            (KName, jname (match find_key x (c_tbl r) with Some h => aget (Pos.of_succ_nat h) (c_cnames r) | None => None end));
+            (KDim, enc_dim (c_nd r) (udim x));
             (KPrefix, if bool_decide (upre x = pid) then JNull else enc_prefix (upre x));
             (KFactors, JArr (match map_to_list (ufac x) with
                             | [] => [JArr [enc_leaf r LOne ∅; JInt 1]]
